@@ -93,8 +93,12 @@ type ReqSpec struct {
 	// NoNorm: the server keeps header names as they were sent (WithDisableHeaderNamesNormalizing); the client spells
 	// them exactly as the tag does (the pinned Test_BindHeaderNormalize wants tag and header to be "consistent" in
 	// that mode: another spelling is not bound, by decision of the maintainers)
-	NoNorm bool                           `json:"header_names_not_normalized,omitempty"`
-	Values map[string]map[string][]string `json:"values"` // field -> source -> texts
+	NoNorm bool `json:"header_names_not_normalized,omitempty"`
+	// JSONKeyCase: the body spells its keys in another case than the json names (1 upper, 2 lower, 3 first letter
+	// swapped). The body decoder matches keys ignoring case when no key matches exactly (encoding/json rules, which
+	// sonic follows), so the body is as present as with the exact spelling.
+	JSONKeyCase int                            `json:"json_key_case,omitempty"`
+	Values      map[string]map[string][]string `json:"values"` // field -> source -> texts
 }
 
 func validText(t *rapid.T, k reflect.Kind) string {
@@ -334,6 +338,9 @@ func genReq(t *rapid.T, fs []FieldSpec, allowInvalid bool) (ReqSpec, bool) {
 	if r.Body == "multipart" {
 		r.CT = rapid.SampledFrom([]string{"", "", "", "Multipart/Form-Data; boundary=BOUND", "multipart/form-data; Boundary=BOUND", "multipart/form-data; charset=utf-8; boundary=BOUND"}).Draw(t, "contentTypeSpelling")
 	}
+	if r.Body == "json" && rapid.IntRange(0, 3).Draw(t, "jsonKeysInAnotherCase") == 0 {
+		r.JSONKeyCase = rapid.IntRange(1, 3).Draw(t, "jsonKeyCase")
+	}
 	r.Recycled = rapid.IntRange(0, 2).Draw(t, "recycledRequest") == 0
 	r.NoNorm = rapid.IntRange(0, 3).Draw(t, "headerNamesNotNormalized") == 0
 	invalid := false
@@ -408,6 +415,18 @@ func encode(fs []FieldSpec, r ReqSpec) ([]byte, param.Params) {
 			case "header":
 				headers = append(headers, key+": "+strings.ReplaceAll(texts[0], "é", "e"))
 			case "json":
+				switch r.JSONKeyCase {
+				case 1:
+					key = strings.ToUpper(key)
+				case 2:
+					key = strings.ToLower(key)
+				case 3:
+					if c := key[:1]; c == strings.ToUpper(c) {
+						key = strings.ToLower(c) + key[1:]
+					} else {
+						key = strings.ToUpper(c) + key[1:]
+					}
+				}
 				jv := func(x string) string {
 					if f.kind == reflect.String {
 						return strconv.Quote(x)
@@ -676,6 +695,9 @@ func classify(c *genCase) (bool, []string) {
 	}
 	if c.Req.CT != "" {
 		cls = append(cls, "content-type-spelling")
+	}
+	if c.Req.JSONKeyCase != 0 {
+		cls = append(cls, "json-keys-in-another-case")
 	}
 	nt := false
 	for i := range c.Fields {
